@@ -75,6 +75,7 @@ class Analyzer:
         self.findings = []
         self.summaries = {}
         self.on_len = on_len
+        self.on_call = None
         self.max_depth = max_depth
         self.visited_funcs = set()
 
@@ -425,6 +426,8 @@ class _Frame:
         argt = [self.ty(a, state) for a in e.args]
         kwt = {k.arg: self.ty(k.value, state) for k in e.keywords if k.arg}
         short = fname.split(".")[-1]
+        if self.an.on_call:
+            self.an.on_call(self, e, argt, kwt)
         # len() hook
         if fname == "len" and e.args:
             if self.an.on_len:
